@@ -306,7 +306,7 @@ def main(run):
             else:
                 stats["structure_factor"] += 1
             dim2 = rep % 3 == 2
-            pdn = [n for n in (pt.pd_2d if dim2 else pt.pd_1d) if n in pars]
+            pdn = [n for n in c01.dispersible(pt, "2d" if dim2 else "1d") if n in pars]
             # also set dispersity on orientation parameters in 1-D: must be ignored by every interface alike
             if oriented and not dim2 and rng.random() < 0.5:
                 pdn = pdn + [p.name for p in pt.call_parameters if p.type == "orientation"]
@@ -408,7 +408,7 @@ def main(run):
             # evaluated before
             if not dim2 and worst <= TOL and rep < 2:
                 cand = [p for p in pt.call_parameters if p.name in pars and p.type == "volume" and p.length == 1 and p.limits[0] == 0.0
-                        and p.name in pt.pd_1d and p.name != mult_info.control]
+                        and p.name in c01.dispersible(pt, "1d") and p.name != mult_info.control]
                 if cand:
                     p = rng.choice(cand)
                     pars3 = {k: v for k, v in pars.items() if not k.startswith(p.name + "_pd")}
@@ -463,7 +463,7 @@ def main(run):
             for hid in ("scale", "background"):
                 if not refuses(lambda: M.setParam(hid, 2.0), ValueError):
                     run.add(Finding("C10:hidden-set:%s" % name, "%s: setParam(%r) accepted although the parameter is hidden for structure factors" % (name, hid), dict(model=name)))
-        vol = [p for p in pt.call_parameters if p.type == "volume" and p.polydisperse and p.name in calc1.model.info.parameters.pd_1d]
+        vol = [p for p in pt.call_parameters if p.type == "volume" and p.polydisperse and p.name in c01.dispersible(calc1.model.info.parameters, "1d")]
         if vol and not is_sf and mult_info.number <= 1 and info.have_Fq is not None:
             p = rng.choice(vol)
             pars = c01.base_pars(info, rng)
